@@ -33,7 +33,8 @@ CLAIM = dict(
     technique="Lean 4 theorems over a hand-written model + differential correspondence + Lean spec as oracle")
 
 THEOREMS = ["links_consistent", "hexLen_unit_step", "meshLen_eq_dist", "torusLen_eq_dist", "torusLen_error",
-            "minimise_xyz_spec", "toXyz_proj", "meshPath_ok", "torusPath_ok", "randint_surjective"]
+            "minimise_xyz_spec", "toXyz_proj", "meshPath_ok", "torusPath_ok", "randint_surjective",
+            "ldf_walk", "ldfOk_meaning"]
 
 RULE = ("torus cases: for chosen (w, h, source chip) every or many destination chips, each in a random three-axis "
         "representation (random z offset, occasional multiples of w/h added), sizes include every w,h in 1..5; "
